@@ -188,25 +188,46 @@ Print Assumptions C10_valid_evaluable.
 
 (* ------------------------------------------------------------------ state machines *)
 
-(* SignalTimePDF._calculate_pd, ANY number system: starting from a state whose
-   cached S belongs to its profile, every source block is the density
-   normalised with the S of the profile reached by ITS row, and the state left
-   behind again satisfies the invariant (S recomputed iff set_params updated) *)
+(* SignalTimePDF._calculate_pd, ANY number system, from ANY state (the cached S
+   may be stale: the method refreshes it first, fix 34ac9f2): every source block
+   is the density normalised with the S of the profile reached by ITS row, the
+   state left behind has S = S_of(profile) (S recomputed iff set_params updated),
+   and its profile is the one reached by the rows *)
 Theorem C10_multi_source_own_S : forall (T : Type) (N : Num T) (ivs : list (T * T)) (tol : T)
     (st : tstate) (rows : list (T * T)) (times : list (list T)),
-  snd st = S_of N ivs (fst st) ->
   fst (calc_pd N ivs tol st rows times) = calc_spec N ivs tol (fst st) rows times /\
   snd (snd (calc_pd N ivs tol st rows times))
-    = S_of N ivs (fst (snd (calc_pd N ivs tol st rows times))).
+    = S_of N ivs (fst (snd (calc_pd N ivs tol st rows times))) /\
+  fst (snd (calc_pd N ivs tol st rows times))
+    = rows_profile N tol (fst st) (firstn (length times) rows).
 Proof. exact @calc_pd_spec. Qed.
 Print Assumptions C10_multi_source_own_S.
+
+(* a Signal/BackgroundTimePDF object under ALL its public operations (the two
+   property setters, get_pd / a new trial) interleaved with changes of the
+   live-time array or of the (possibly shared) profile object from outside:
+   what it returns is a function of the CURRENT live time and profile only *)
+Theorem C10_object_history : forall (T : Type) (N : Num T) (tol : T) (o : tobj) (ops : list top),
+  snd (orun N tol o ops) = spec_run N tol (o_ivs o, o_prof o) ops.
+Proof. exact @orun_spec. Qed.
+Print Assumptions C10_object_history.
+
+(* needed: outside changes break S = S_of(profile), and the bare loop (the code
+   before the repair) then returns 2/3 where the normalised density is 1 *)
+Theorem C10_stale_S_refuted : forall erf : R -> R,
+  snd (Box (1 / 2) 3, 3 / 2)%R = S_of (RNum erf) [(0, 1); (2, 4)]%R (fst (Box (1 / 2) 3, 3 / 2)%R) /\
+  ~ snd (Box 0 1, 3 / 2)%R = S_of (RNum erf) [(0, 1); (2, 4)]%R (fst (Box 0 1, 3 / 2)%R) /\
+  tpd (RNum erf) [(0, 1); (2, 4)]%R (Box 0 1, 3 / 2)%R (1 / 2)%R = (2 / 3)%R /\
+  sig_time_pd (RNum erf) [(0, 1); (2, 4)]%R (Box 0 1)%R (1 / 2)%R = 1%R.
+Proof. exact stale_refuted. Qed.
+Print Assumptions C10_stale_S_refuted.
 
 (* ... over any history of get_pd calls on one object *)
 Theorem C10_calls_keep_S : forall (T : Type) (N : Num T) (ivs : list (T * T)) (tol : T)
     (st : tstate) (calls : list (list (T * T) * list (list T))),
   snd st = S_of N ivs (fst st) ->
   snd (snd (calc_calls N ivs tol st calls)) = S_of N ivs (fst (snd (calc_calls N ivs tol st calls))).
-Proof. exact @calc_calls_inv. Qed.
+Proof. exact @calc_calls_inv'. Qed.
 Print Assumptions C10_calls_keep_S.
 
 (* set_params reports `not updated` only when the profile is unchanged *)
@@ -327,6 +348,32 @@ Theorem C10_time_S_zero_witness : forall erf : R -> R,
   sig_time_pd (XNum erf) [(Fin 0, Fin 1)] (Box (Fin (1 / 2)) (Fin (1 / 2))) (Fin 2) = Fin 0.
 Proof. exact S_zero_witness. Qed.
 Print Assumptions C10_time_S_zero_witness.
+
+(* ------------------------------------------------------------------ validity check and NaN / inf (fix 837a912) *)
+
+(* NaN and +-inf are out of range for every binning: rejected by
+   assert_is_valid_for_trial_data, they never reach the lookup; on finite values
+   the test is lo <= x <= up, and on integers it is the Z kernel used by
+   C10_valid_evaluable *)
+Theorem C10_nan_rejected : forall (erf : R -> R) (lo up : ext),
+  bin_oor_n (XNum erf) XNaN lo up = true.
+Proof. exact nan_rejected. Qed.
+Print Assumptions C10_nan_rejected.
+
+Theorem C10_inf_rejected : forall (erf : R -> R) (lo up : R),
+  bin_oor_n (XNum erf) PInf (Fin lo) (Fin up) = true /\ bin_oor_n (XNum erf) NInf (Fin lo) (Fin up) = true.
+Proof. exact inf_rejected. Qed.
+Print Assumptions C10_inf_rejected.
+
+Theorem C10_range_check_ext_is_Z : forall (erf : R -> R) (x lo up : Z),
+  bin_oor_n (XNum erf) (Fin (IZR x)) (Fin (IZR lo)) (Fin (IZR up)) = bin_oor x lo up.
+Proof. exact bin_oor_bridge. Qed.
+Print Assumptions C10_range_check_ext_is_Z.
+
+(* the test as it was before the repair, (x < lo) | (x > up), accepted NaN *)
+Example C10_nan_accepted_before : forall (erf : R -> R) (lo up : R),
+  orb (nltb (XNum erf) XNaN (Fin lo)) (nltb (XNum erf) (Fin up) XNaN) = false.
+Proof. exact nan_accepted_before. Qed.
 
 (* ------------------------------------------------------------------ smoothed histograms *)
 
